@@ -609,7 +609,7 @@ func (t *tr) recvTypeName() string {
 // f.M(…) with f the receiver and M a translated method of the same type
 func (t *tr) ownMethod(c *ast.CallExpr) (*methodInfo, bool) {
 	sel, ok := c.Fun.(*ast.SelectorExpr)
-	if !ok || t.recvName == "" {
+	if !ok || t.recvName == "" || t.noOwn {
 		return nil, false
 	}
 	id, ok := sel.X.(*ast.Ident)
@@ -713,4 +713,55 @@ func (t *tr) mayPanic(e ast.Expr) bool {
 		return true
 	})
 	return found
+}
+
+// `&T{field: …, val: X}` / `T{…}` for an object struct (not a tuple of basic fields) that has a `val`
+// field: the object is represented by its value word X (the other fields are the context)
+func (t *tr) objectLit(e ast.Expr) (ast.Expr, bool) {
+	if p, ok := e.(*ast.ParenExpr); ok {
+		e = p.X
+	}
+	if u, ok := e.(*ast.UnaryExpr); ok && u.Op == token.AND {
+		e = u.X
+	}
+	cl, ok := e.(*ast.CompositeLit)
+	if !ok {
+		return nil, false
+	}
+	if _, isTuple := t.structTuple(src(cl.Type)); isTuple {
+		return nil, false
+	}
+	hasVal := false
+	for _, f := range structFields(t.fn.pkg, src(cl.Type)) {
+		if f.name == "val" && f.ty == "uint" {
+			hasVal = true
+		}
+	}
+	if !hasVal {
+		return nil, false
+	}
+	for _, el := range cl.Elts {
+		if kv, ok := el.(*ast.KeyValueExpr); ok && src(kv.Key) == "val" {
+			return kv.Value, true
+		}
+	}
+	return nil, false
+}
+
+// every `return` of the body returns the receiver itself
+func returnsOnlyRecv(d *ast.FuncDecl, recv string) bool {
+	n, ok := 0, true
+	ast.Inspect(d.Body, func(m ast.Node) bool {
+		if _, isLit := m.(*ast.FuncLit); isLit {
+			return false
+		}
+		if r, isRet := m.(*ast.ReturnStmt); isRet {
+			n++
+			if len(r.Results) != 1 || src(r.Results[0]) != recv {
+				ok = false
+			}
+		}
+		return true
+	})
+	return ok && n > 0
 }
